@@ -3,6 +3,7 @@
   `opts-compress`.  Texts travel as the hex of their UTF-8 bytes (`e` = empty text).
 -/
 import Bita.Model.Options
+import Bita.Model.Sink
 import Driver.Proto
 
 open Bita Bita.Options Driver
@@ -108,6 +109,13 @@ def handleOpts (toks : List String) : Option String :=
         | _ => none
     let r := metadataOf (← parse strings) (← parse files)
     some s!"map={if r.isEmpty then "-" else joinWith "," (r.map fun e => showHexE e.1 ++ ":" ++ showHexE e.2)}"
+  -- sink <limit> <piece lengths .-separated | -> : LimitedOutput under the given writes (piece i is pattern bytes)
+  | ["sink", limit, lens] => do
+    let ls ← if lens = "-" then some [] else (lens.splitOn ".").mapM parseNat
+    let pieces := ls.foldl (fun (acc : List Bytes × Nat) n => (acc.1 ++ [slice (pattern (acc.2 + n)) acc.2 n], acc.2 + n)) ([], 0)
+    match Sink.run (← parseNat limit) pieces.1 with
+    | .ok b => some s!"ok {digest b} peak={(Sink.states (← parseNat limit) pieces.1).foldl max 0}"
+    | .error i => some s!"refused-at {i} peak={(Sink.states (← parseNat limit) pieces.1).foldl max 0}"
   -- chunker-alloc <cfg> : the largest allocation request of `Config::new_chunker`
   | ["chunker-alloc", "R", b, mn, mx, w] => do
     some s!"max={(chunkerAllocations (.rollsum ⟨← parseNat b, ← parseNat mn, ← parseNat mx, ← parseNat w⟩)).foldl max 0}"
